@@ -145,6 +145,20 @@ class Net:
             net.base = len(net.socks)
             if net.addrs is None:
                 raise real_socket.gaierror(-2, "Name or service not known")
+            if getattr(net, "v6", False) in ("mixed46", "mixed64"):
+                # a dual-stack answer: IPv6 and IPv4 entries interleaved; every socket must be made for ITS entry's family
+                first6 = net.v6 == "mixed64"
+                net.resolved, infos = [], []
+                for i in range(len(net.addrs)):
+                    if (i % 2 == 0) == first6:
+                        a = (f"fe80::{i + 1:x}", port, 0, 3)
+                        infos.append((real_socket.AF_INET6, real_socket.SOCK_STREAM, 6, "", a))
+                    else:
+                        a = (net.ip_base + str(i + 1), port)
+                        infos.append((real_socket.AF_INET, real_socket.SOCK_STREAM, 6, "", a))
+                    net.resolved.append(a)
+                net.infos = infos
+                return list(infos)
             if getattr(net, "v6", False):
                 # link-local IPv6 answers: the sockaddr is (host, port, flowinfo, scope_id) and is what connect() must be given
                 net.resolved = [(f"fe80::{i + 1:x}", port, 0, 3) for i in range(len(net.addrs))]
@@ -154,6 +168,7 @@ class Net:
 
         def mk(family=-1, type=-1, proto=-1, fileno=None):
             s = FakeSock(net, len(net.socks))
+            s.ctor = (family, type, proto)
             net.socks.append(s)
             net.log.append(("create", s.i))
             return s
